@@ -213,6 +213,57 @@ def job_script(paths):
     return acc
 
 
+FILE_EXTRA = [
+    ('bom.feature', '\ufeffFeature: starts with a byte order mark\n  Scenario: s\n    Given x\n'),
+    ('bom-inside.feature', 'Feature: f\n  Scenario: \ufeff s\n    Given x \ufeff\n'),
+    ('crlf-mixed.feature', 'Feature: f\r\n  Scenario: s\n    Given x\r\n'),
+    ('nofinal.feature', 'Feature: f\n  Scenario: s'),
+    ('odd-separators.feature', 'Feature: f\n  a\x0bb\x0cc\x1cd\x85e\u2028f\n  Scenario: s\n'),
+]
+
+
+@worker
+def job_files(items):
+    """SourceEvents / source_event(path): the source envelope carries the file's text unchanged, and the stream over the file
+    equals the stream over the same text."""
+    import os
+    import shutil
+    import tempfile
+    from gherkin.stream.source_events import SourceEvents
+    acc = Acc()
+    tmp = tempfile.mkdtemp(prefix='c17-')
+    try:
+        paths = []
+        for name, text in items:
+            path = os.path.join(tmp, name)
+            with open(path, 'w', encoding='utf8', newline='') as f:
+                f.write(text)
+            paths.append((path, text))
+        events = list(SourceEvents([p for p, _ in paths]).enum())
+        acc.n += 1
+        if [e['source']['uri'] for e in events] != [p for p, _ in paths]:
+            acc.violation('source-order', {'kind': 'files', 'names': [n for n, _ in items]}, 'SourceEvents does not yield the sources in the order given')
+        for (path, text), ev in zip(paths, events):
+            case = {'kind': 'file', 'name': os.path.basename(path), 'text': text}
+            acc.n += 1
+            acc.validated += 1
+            acc.nontrivial += 1
+            want = {'source': {'uri': path, 'data': text, 'mediaType': 'text/x.cucumber.gherkin+plain'}}
+            if ev != want:
+                acc.violation('source-envelope', case, 'source envelope of a file does not carry uri, the file\'s text unchanged and the Gherkin media type',
+                              observed={k: (v if k != 'data' else repr(v)[:200]) for k, v in ev.get('source', {}).items()}, expected=repr(text)[:200])
+                continue
+            for opts in ((True, True, True), (False, False, False)):
+                a = list(GherkinEvents(GherkinEvents.Options(*opts)).enum(ev))
+                b = I.events(text, uri=path, opts=opts)[1]
+                if a != b:
+                    acc.violation('file-stream', case, 'stream over the file differs from the stream over the same text')
+    finally:
+        shutil.rmtree(tmp, ignore_errors=True)
+    acc.sample({'files': [n for n, _ in items]})
+    return acc
+
+
 def run(ctx):
     probs = R.selftest()
     ctx.selftest(not probs, 'reference pipeline reproduces the acceptance corpus (%s)' % (probs[:3] or 'ok'))
@@ -224,6 +275,8 @@ def run(ctx):
     good, bad = R.corpus()
     files = good + bad
     ctx.level('generate_events script on the corpus', [job_script.job(files[i:i + 4]) for i in range(0, len(files), 4)])
+    items = POOL + FILE_EXTRA
+    ctx.level('source_event on files', [job_files.job(items[i:i + 5]) for i in range(0, len(items), 5)])
     n = ctx.pick(3, 4)
     ctx.level('sequences <= %d' % n, [job_sequences.job(i, o, n) for i in range(len(POOL)) for o in range(len(OPTS))])
     # the command-line script prints the same envelopes
